@@ -438,17 +438,15 @@ class NotificationCenter(object):
                 }
             ]
         """
-        if observer is not None:
-            observer = weakref.ref(observer)
-        if observable is not None:
-            observable = weakref.ref(observable)
+        # the observer and the observable are matched by identity
+        # (equal weakrefs only say that the objects are equal)
         found = []
         for (otherNotification, otherObservable), observerDict in self._registry.items():
             if notification is not None:
                 if otherNotification != notification:
                     continue
             if observable is not None:
-                if otherObservable != observable:
+                if otherObservable is None or otherObservable() is not observable:
                     continue
             for otherObserver, methodName in observerDict.items():
                 otherIdentifier = None
@@ -460,7 +458,7 @@ class NotificationCenter(object):
                     if not fnmatchcase(otherIdentifier, identifier):
                         continue
                 if observer is not None:
-                    if otherObserver != observer:
+                    if otherObserver() is not observer:
                         continue
                 observation = dict(
                     observer=otherObserver(),
